@@ -4,6 +4,10 @@ use libfuzzer_sys::fuzz_target;
 
 fuzz_target!(|data: &[u8]| {
     if let Ok(s) = std::str::from_utf8(data) {
+        // the property speaks of programs whose names are not operator words
+        if !vh::props::c12::names_avoid_operator_words(s) {
+            return;
+        }
         let mut st = vh::runner::Stats::new();
         if let Err(f) = vh::props::c12::check_text(s, "", false, &mut st) {
             panic!("VIOLATION {} :: {}", f.sig, f.detail);
